@@ -356,6 +356,9 @@ func c03Scripted() []c03History {
 		{"snapshot-shutdown", "ooo+snap", []string{"app/s1/F+1/f", "app/s1/F+1/h", "app/s1/F-Wh/f", "reopen", "app/s1/F+1/f", "reopen"}},
 		{"ooo-compaction-neg", "oooneg", []string{"app/s1/F+1/f", "app/s1/F-Wh/f", "cmpooo", "app/s1/F+160/f", "app/s1/F-Wh/h", "compact", "reopen"}},
 		{"histograms+rollback", "ooo", []string{"app/s1/F+1/h", "app/s1/F+1/fh", "rb/s1/F+1/f", "app/s1/F+1/f/s2/F+1/f", "app/s1/F+1/st", "rotate", "reopen"}},
+		// a deletion straddling the head truncation time, then a WAL checkpoint (3 rotations + head
+		// compaction): the checkpoint must carry the tombstone for the part of the range still in the head
+		{"delete+checkpoint", "ooo", []string{"app/s1/F+1/f", "app/s2/F+1/f", "app/s1/F+160/f", "del/s1/F-170/F+0", "rotate", "rotate", "rotate", "cmphead", "app/s2/F+1/f", "reopen"}},
 	}
 }
 
@@ -489,14 +492,14 @@ func TestVerifC03(t *testing.T) {
 		for _, f := range fails {
 			r.Violation(f.Signature, fmt.Sprintf("history %s %v: %s", h.Name, h.Ops, f.Message), map[string]any{"history": h, "torn": torn})
 		}
-		if i < 8 || i%97 == 0 {
+		if i < 9 || i%97 == 0 {
 			r.Sample(map[string]any{"history": h, "crash_points": p})
 		}
 		r.Distinct("distinct_nontrivial", strings.Join(h.Ops, ";"))
 	}
 	r.Count("crash_points", points)
 	r.Count("evaluations", recov)
-	r.Set("rule", fmt.Sprintf("8 scripted histories (segment rotation+checkpoint, head/OOO/block compaction, deletes+CleanTombstones, time retention, snapshot on shutdown, negative timestamps, histograms+rollback) plus every dbx operation sequence of length <=%d over a %d-operation alphabet; for each history EVERY mutating file-system call of package os inside the data directory (write, create/truncate-open, rename, remove, mkdir, link, truncate; RemoveAll expanded into every partial removal%s) and every operation boundary is a crash point: the directory is copied, reopened and compared with the model bounds, then a further append+commit+reopen must stick. evaluations = recoveries executed; distinct_nontrivial = distinct histories", depth, len(small), map[bool]string{true: "; torn writes at 1, n/2, n-1 bytes", false: ""}[torn]))
+	r.Set("rule", fmt.Sprintf("9 scripted histories (segment rotation+checkpoint, delete+checkpoint, head/OOO/block compaction, deletes+CleanTombstones, time retention, snapshot on shutdown, negative timestamps, histograms+rollback) plus every dbx operation sequence of length <=%d over a %d-operation alphabet; for each history EVERY mutating file-system call of package os inside the data directory (write, create/truncate-open, rename, remove, mkdir, link, truncate; RemoveAll expanded into every partial removal%s) and every operation boundary is a crash point: the directory is copied, reopened and compared with the model bounds, then a further append+commit+reopen must stick. evaluations = recoveries executed; distinct_nontrivial = distinct histories", depth, len(small), map[bool]string{true: "; torn writes at 1, n/2, n-1 bytes", false: ""}[torn]))
 	r.Assume("process-crash semantics: completed system calls are durable in the page cache; fsync/close are not state changes; user-space buffers are lost")
 	r.Assume("direct syscalls outside package os (fileutil.Preallocate/Fdatasync, mmap) are not crash points")
 }
